@@ -200,6 +200,12 @@ func (m *mux) Open(id ConnID) (net.Conn, error) {
 			readC: make(chan []byte, m.qlen),
 		}
 		m.conns[id] = c
+		select {
+		case <-m.doneC:
+			// the Mux is closed already: nobody would ever wake this connection's readers
+			c.close()
+		default:
+		}
 	}
 
 	return c, nil
